@@ -228,6 +228,31 @@ T['program-stderr-ign'] = ('-stderr-from -ignore-exit-code % gen g1 @[S0]@', [C(
                            ([[C('gen')], [C('g1')], [S(0)]], None, 'gen-ign'))
 
 
+# ----------------------------------------------------------------------------- what a child may write: BYTES
+# A process writes bytes to its stdout / stderr; nothing obliges them to be the UTF-8 encoding of a text.
+# (description, bytes).  The classes of byte sequences that are NOT valid UTF-8 (RFC 3629), and - as controls - valid
+# ones that are not plain ASCII text.
+RAW_OUTPUTS = (
+    ('not UTF-8: a byte that cannot start a sequence (0xff 0xfe)', b'\xff\xfe bad\n'),
+    ('not UTF-8: a continuation byte without a start byte', b'a\x80b\n'),
+    ('not UTF-8: a sequence truncated by the end of the output', b'abc\xe2\x82'),
+    ('not UTF-8: an overlong encoding', b'\xc0\xaf\n'),
+    ('not UTF-8: an encoded surrogate', b'x\xed\xa0\x80\n'),
+    ('not UTF-8: beyond U+10FFFF', b'\xf4\x90\x80\x80\n'),
+    ('not UTF-8: latin-1 text', 'caf\xe9 au lait\n'.encode('latin-1')),
+    ('valid UTF-8: multi-byte characters', 'caf\xe9 \u20ac \U0001f600\n'.encode('utf-8')),
+    ('valid UTF-8: control characters', b'a\x00\x01\x1b[0m\r\n'),
+)
+
+
+def is_utf8(data: bytes) -> bool:
+    try:
+        data.decode('utf-8')
+        return True
+    except UnicodeDecodeError:
+        return False
+
+
 def here_doc(lines: Sequence[str]) -> Tuple[str, list]:
     """(source text, value) of a here-document with the given body lines: the value is the lines, each terminated
     by a new-line, exactly as written (symbol references substituted)"""
